@@ -246,7 +246,7 @@ def legendre_rule(rep, cfg):
         out = cfg.run(ps[0])
         S_ = mk("param", "self")
         p = K.MODULI[f]
-        flows = out.flows
+        flows = C.expand_flows(out.flows)
         key = "LEGENDRE/%s/%s" % (cfg.name, f)
         ok = False
         why = "flows: %s" % [([Tm.show(c, maxdepth=4) for c in pc], Tm.show(v, maxdepth=2)) for pc, v in flows][:3]
